@@ -81,7 +81,7 @@ func runC11(c *run.Ctx) {
 	c.Rule = "histories: one document parsed once, then resolved 2-6 times with varying operation name and variable maps; every call is compared (data, error paths, messages) with the same call on a " +
 		"freshly parsed copy, and the executable's printed form (operations and fragments, sorted) must be unchanged after every call. Documents are steered to variables inside literal objects/lists, " +
 		"arguments in non-declaration order, shared fragments, input-object defaults and several operations. Non-trivial = the document uses variables or arguments; distinct by (document, history)"
-	n := c.N(800, 30000)
+	n := c.N(1600, 30000)
 	c.MinNontriv = n / 10
 	steps := 0
 	// object literals are Go maps: print them with sorted keys so the printed form is deterministic
@@ -151,7 +151,7 @@ func runC11(c *run.Ctx) {
 	}
 	// histories over the reflection schema with methods, including requests that are invalid (undeclared, missing or
 	// mistyped arguments, unknown fields): the answer to an invalid request must be repeatable too
-	m := c.N(400, 12000)
+	m := c.N(800, 12000)
 	for i := 0; i < m && !c.TooMany(); i++ {
 		r := c.Rand(500000 + i)
 		root, _, err := zoo.NewRoot()
@@ -216,7 +216,7 @@ func runC11(c *run.Ctx) {
 // types (whose fields are covariant), resolved in random order on ONE parsed executable: anything the first resolution
 // leaves behind on the shared request nodes (container type, field definition) shows up as a difference from a fresh parse.
 func c11Menagerie(c *run.Ctx) int {
-	n := c.N(120, 6000)
+	n := c.N(300, 6000)
 	steps := 0
 	for i := 0; i < n && !c.TooMany(); i++ {
 		r := c.Rand(900000 + i)
